@@ -238,7 +238,7 @@ pub fn ref_split(text: &str) -> Option<Vec<Piece>> {
 // Corpus
 
 /// Small valid programs, together covering every production of the grammar.
-pub const SMALL_PROGRAMS: [&str; 46] = [
+pub const SMALL_PROGRAMS: [&str; 48] = [
     "let a = num;",
     "res /;",
     "let a = str; let b = a;",
@@ -278,6 +278,8 @@ pub const SMALL_PROGRAMS: [&str; 46] = [
     "res /?{ 'q! str } on get -> <>;",
     "use \"m.oal\"; res /;",
     "use \"m.oal\" as m; let a = m.b;",
+    "let a = num; use \"m.oal\"; res /;",
+    "res /; use \"m.oal\" as m; let a = m.b;",
     "# description: \"d\"\nlet a = num;",
     "let a = num `title: \"t\"`;",
     "let a = {\n  # description: \"d\"\n  'p! num `minimum: 0`\n};",
@@ -639,7 +641,7 @@ pub enum TextSpace {
         cases: Vec<(&'static str, usize)>,
     },
     /// Every corpus program and every generated single-module program (kind-agnostic
-    /// expressions of <= 2 constructors x 27 contexts, fragments) with one matched pair of
+    /// expressions of <= 2 constructors x 28 contexts, fragments) with one matched pair of
     /// parentheses removed.
     Unparen {
         texts: std::sync::Arc<Vec<(String, String)>>,
@@ -652,6 +654,55 @@ pub enum TextSpace {
         progs: Vec<(&'static Prog, u64)>,
         total: u64,
     },
+    /// Every corpus program cut after each of its tokens (the text ends right after the
+    /// token, or after one more line break): what an editor holds while the program is typed.
+    Prefix {
+        progs: Vec<(&'static Prog, u64)>,
+        total: u64,
+    },
+    /// Number literals at and around the powers of two where an integer type ends, in the
+    /// places where the language reads a number.
+    Numbers,
+}
+
+pub fn p_prefix() -> Value {
+    json!({"space": "prefix"})
+}
+pub fn p_numbers() -> Value {
+    json!({"space": "numbers"})
+}
+
+fn number_texts() -> Vec<(String, String)> {
+    let mut lits: Vec<String> = vec!["0".into(), "00".into(), "007".into(), "-1".into(), "1e3".into(), "1.5".into(), "0x10".into(), "1_000".into()];
+    for bits in [8u32, 16, 31, 32, 53, 63, 64, 127, 128] {
+        let edge: u128 = if bits == 128 { u128::MAX } else { 1u128 << bits };
+        for d in -5i32..=5 {
+            if bits == 128 {
+                if d <= 0 {
+                    lits.push((edge - (-d) as u128).to_string());
+                } else {
+                    // 2^128 - 1 + d, written out
+                    lits.push(format!("34028236692093846346337460743176821145{}", 5 + d));
+                }
+            } else if d < 0 {
+                lits.push((edge - (-d) as u128).to_string());
+            } else {
+                lits.push((edge + d as u128).to_string());
+            }
+        }
+    }
+    for p in [19usize, 20, 38, 39, 40] {
+        lits.push(format!("1{}", "0".repeat(p)));
+    }
+    let mut out = Vec::new();
+    for l in lits {
+        out.push((format!("let a = {l};\nres / on get -> <a>;\n"), format!("{l} as the value of a declaration")));
+        out.push((format!("res / on get -> <status={l}, {{}}>;\n"), format!("{l} as a status")));
+        out.push((format!("let f x = <status=x, {{}}>;\nres / on get -> f {l};\n"), format!("{l} as an argument")));
+        out.push((format!("res / on get -> <{{ 'n int `minimum: {l}` }}>;\n"), format!("{l} in an annotation")));
+        out.push((format!("res / on get -> <> :: {l};"), format!("{l} as the last token of the text")));
+    }
+    out
 }
 
 /// Phase parameter of a sequence space.
@@ -835,6 +886,16 @@ impl TextSpace {
                 }
                 TextSpace::Ins { progs, total }
             }
+            "prefix" => {
+                let mut progs = Vec::new();
+                let mut total = 0u64;
+                for pr in corpus().iter() {
+                    progs.push((pr, total));
+                    total += 2 * (pr.toks.len() as u64 + 1);
+                }
+                TextSpace::Prefix { progs, total }
+            }
+            "numbers" => TextSpace::Numbers,
             "nest" => TextSpace::Nest {
                 cases: nest_cases(p["thorough"].as_bool().unwrap_or(false)),
             },
@@ -855,6 +916,8 @@ impl TextSpace {
             TextSpace::Ins { total, .. } => *total,
             TextSpace::Unparen { texts } => texts.len() as u64,
             TextSpace::Imports => import_texts().len() as u64,
+            TextSpace::Prefix { total, .. } => *total,
+            TextSpace::Numbers => number_texts().len() as u64,
         }
     }
 
@@ -903,6 +966,25 @@ impl TextSpace {
             }
             TextSpace::Unparen { texts } => texts[idx as usize].clone(),
             TextSpace::Imports => import_texts()[idx as usize].clone(),
+            TextSpace::Numbers => number_texts()[idx as usize].clone(),
+            TextSpace::Prefix { progs, .. } => {
+                let k = progs.partition_point(|(_, base)| *base <= idx) - 1;
+                let (p, base) = progs[k];
+                let local = (idx - base) as usize;
+                let (cut, nl) = (local / 2, local % 2 == 1);
+                let mut toks: Vec<(String, String)> = p.toks[..cut].to_vec();
+                if let Some(last) = toks.last_mut() {
+                    last.1 = String::new();
+                }
+                let mut t = render(&p.prefix, &toks);
+                if cut == 0 {
+                    t = String::new();
+                }
+                if nl {
+                    t.push('\n');
+                }
+                (t, format!("{} cut after {cut} tokens{}", p.name, if nl { " and a line break" } else { "" }))
+            }
             TextSpace::Ins { progs, .. } => {
                 let k = progs.partition_point(|(_, base)| *base <= idx) - 1;
                 let (p, base) = progs[k];
